@@ -58,15 +58,28 @@ func scRebuild(p *scionPkt, mod func(s *slayers.SCION, u *slayers.UDP, pld *[]by
 
 func c05SCIONWorld(r *simcore.Run) any {
 	tp := r.Tape
-	w := newSCIONWorld(r, time.Duration(tp.Range(0, int64(10*time.Second), "srvoff")), 1)
-	w.startServers(2, false, 0, nil, false)
-	filter := &recFilter{}
-	cl := &client.SCIONClient{Log: quietLog(), InterleavedMode: tp.Bool(1, 2, "interleaved"), Filter: filter}
-	var segs []int
-	if tp.Bool(2, 3, "path") {
-		segs = []int{2 + tp.Intn(5, "h")}
+	useNTS := tp.Bool(1, 3, "nts")
+	var w *scionWorld
+	var cl *client.SCIONClient
+	var filter *recFilter
+	var path snet.Path
+	if useNTS {
+		// NTS over SCION: real key exchange (over TLS on simulated TCP), real key provider
+		nw := newNTSSCIONWorld(r, 2)
+		w, cl, filter, path = nw.scionWorld, nw.cl, nw.filter, nw.path
+		cl.InterleavedMode = tp.Bool(1, 2, "interleaved")
+		r.Probe("scion-nts")
+	} else {
+		w = newSCIONWorld(r, time.Duration(tp.Range(0, int64(10*time.Second), "srvoff")), 1)
+		w.startServers(2, false, 0, nil, false)
+		filter = &recFilter{}
+		cl = &client.SCIONClient{Log: quietLog(), InterleavedMode: tp.Bool(1, 2, "interleaved"), Filter: filter}
+		var segs []int
+		if tp.Bool(2, 3, "path") {
+			segs = []int{2 + tp.Intn(5, "h")}
+		}
+		path = w.mkPath(0, segs, 1, scCliIA, scSrvIA)
 	}
-	path := w.mkPath(0, segs, 1, scCliIA, scSrvIA)
 	laddr, raddr := w.udpAddrs()
 	srvIP, cliIP := netip.MustParseAddr(scSrvIP), netip.MustParseAddr(scCliIP)
 	nmeas := 4 + tp.Intn(20, "nmeas")
@@ -83,6 +96,7 @@ func c05SCIONWorld(r *simcore.Run) any {
 	var history [][]byte
 	attacks := map[uint64]string{}
 	attacked := false
+	calm := false // no attack in this exchange (see the driver)
 	var kindsUsed []string
 	w.net.Intercept = func(d *simnet.Datagram) ([]simnet.Route, bool) {
 		// the router's copy of a server reply, on its way to the client
@@ -95,7 +109,7 @@ func c05SCIONWorld(r *simcore.Run) any {
 		}
 		genuine := append([]byte(nil), d.Payload...)
 		defer func() { history = append(history, genuine) }()
-		if !tp.Bool(attackRate, 1000, "attack?") {
+		if calm || !tp.Bool(attackRate, 1000, "attack?") {
 			return nil, false
 		}
 		attacked = true
@@ -104,7 +118,19 @@ func c05SCIONWorld(r *simcore.Run) any {
 		for i := 0; i < n; i++ {
 			var pl []byte
 			kind := ""
-			switch tp.Intn(14, "akind") {
+			switch tp.Intn(16, "akind") {
+			case 14:
+				if !useNTS {
+					continue
+				}
+				kind = "nts-stripped"
+				pl = scRebuild(p, func(s *slayers.SCION, u *slayers.UDP, pld *[]byte) { *pld = (*pld)[:48] })
+			case 15:
+				if !useNTS || len(p.pld) < 90 {
+					continue
+				}
+				kind = "nts-uid-changed"
+				pl = scRebuild(p, func(s *slayers.SCION, u *slayers.UDP, pld *[]byte) { (*pld)[52+tp.Intn(32, "uidb")] ^= 1 })
 			case 0:
 				kind = "random-bytes"
 				pl = make([]byte, []int{0, 1, 47, 48, 60, 200, 1024}[tp.Intn(7, "rlen")])
@@ -245,7 +271,12 @@ func c05SCIONWorld(r *simcore.Run) any {
 		}
 		if why == "" {
 			req, _ := decodeNTP(qp.pld)
-			_, why = c05Predicate(&simnet.Datagram{Src: netip.AddrPortFrom(srvIP, scSvcPort), Payload: lp.pld}, req, srvIP, false, nil, nil, time.Now())
+			var s2c, uid []byte
+			if useNTS {
+				s2c = cl.Auth.NTSKEFetcher.VerifData().S2cKey
+				uid = uidOf(qp.pld)
+			}
+			_, why = c05Predicate(&simnet.Datagram{Src: netip.AddrPortFrom(srvIP, scSvcPort), Payload: lp.pld}, req, srvIP, useNTS, s2c, uid, time.Now())
 		}
 		if why != "" {
 			r.Fail("C05", "scion/accepted/"+kind, "an offset was reported from a datagram that fails the predicate (%s): %s", kind, why)
@@ -264,6 +295,14 @@ func c05SCIONWorld(r *simcore.Run) any {
 				return
 			}
 			attacked, curReq = false, nil
+			// Known finding F13: a request at pool level 1 does not fit and panics on the client's
+			// own measurement goroutine, which would take the worker process down; when the pool is
+			// about to get there, the exchange is left alone so that it succeeds and refills the pool.
+			calm = false
+			// (a measurement makes up to three attempts in interleaved mode, one cookie each)
+			if n := cl.Auth.NTSKEFetcher.VerifPoolLen(); useNTS && n > 0 && n <= 4 {
+				calm = true
+			}
 			ev0 := evaluated
 			ctx, cancel := simsync.WithTimeout(context.Background(), 300*time.Millisecond)
 			client.MeasureClockOffsetSCION(ctx, log, []*client.SCIONClient{cl}, laddr, raddr, []snet.Path{path})
@@ -298,6 +337,6 @@ func c05SCIONWorld(r *simcore.Run) any {
 	}
 	r.Count("measurements", int64(ok+rejected))
 	r.Count("attacks", int64(len(attacks)))
-	return map[string]any{"transport": "scion", "interleaved": cl.InterleavedMode, "measurements": nmeas, "ok": ok, "failed": rejected,
+	return map[string]any{"transport": "scion", "nts": useNTS, "interleaved": cl.InterleavedMode, "measurements": nmeas, "ok": ok, "failed": rejected,
 		"crafted_datagrams": len(attacks), "crafted_accepted_legitimately": acceptedAttack, "examples": samples}
 }
